@@ -47,6 +47,7 @@ Section Coh.
     iv_obs1 : forall n s, ps_insub m n s -> In (ps_obs_of c s) (ps_ol (ab_obs A));
     iv_obs2 : forall rec, In rec (ps_ol (ab_obs A)) -> exists n s, ps_insub m n s /\ rec = ps_obs_of c s;
     iv_obs3 : NoDup (map pso_key (ps_ol (ab_obs A)));
+    iv_cnt0 : forall n x, In (n, x) (ps_ol (ab_cnt A)) -> ps_has m n;
     iv_cnt1 : NoDup (map fst (ps_ol (ab_cnt A)));
     iv_cnt2 : forall n x r, In (n, x) (ps_ol (ab_cnt A)) -> ps_find n m = Some r ->
                0 <= x /\ x <= psr_observe r <= ps_rnd (psc_freq c) x;
@@ -235,6 +236,9 @@ Section Coh.
     - intros rec Hr. rewrite Hobsf in Hr. destruct (iv_obs2 _ _ _ Hi rec Hr) as (n & s & Hs & E).
       exists n, s. split; [apply Hiff; exact Hs|exact E].
     - rewrite Hobsf. apply (iv_obs3 _ _ _ Hi).
+    - intros n x Hin. unfold ps_has. rewrite Hfind. destruct (Hc2 n x Hin) as [[Hne Hold]|[-> _]].
+      + rewrite (ps_beq_false n name Hne). apply (iv_cnt0 _ _ _ Hi n x Hold).
+      + rewrite ps_beq_refl. discriminate.
     - subst calls. destruct (v mod psc_freq c =? 0); [|apply (iv_cnt1 _ _ _ Hi)].
       cbn [ps_abs_calls ps_abs_call ab_cnt]. rewrite ps_ol_add by reflexivity.
       apply ps_cnt_set_nodup. apply (iv_cnt1 _ _ _ Hi).
@@ -253,5 +257,101 @@ Section Coh.
       + apply in_map_iff in Hin. destruct Hin as (s & E & _). inversion E; subst n tu tok v0.
         rewrite Hfind, ps_beq_refl. exists new. split; [reflexivity|].
         split; [cbn [psr_observe new]; lia|apply Hc3; exact Hline].
+  Qed.
+
+  (* ---------------------------------------------------------------- put *)
+  Lemma ps_dyn_without_in : forall name D d,
+    In d (ps_dyn_without name D) <-> In d D /\ psd_name d <> name.
+  Proof.
+    intros name D d. unfold ps_dyn_without. rewrite filter_In. split.
+    - intros [Hin Hb]. split; [exact Hin|]. intro E. rewrite <- E, ps_beq_refl in Hb. discriminate.
+    - intros [Hin Hne]. split; [exact Hin|]. rewrite ps_beq_false; [reflexivity|congruence].
+  Qed.
+
+  Lemma ps_insub_app_fresh : forall m x n s,
+    psr_subs x = [] -> (ps_insub (m ++ [x]) n s <-> ps_insub m n s).
+  Proof.
+    intros m x n s Hx. unfold ps_insub. rewrite ps_find_app. split.
+    - intros (r & E & Hin). destruct (ps_find n m) as [r0|].
+      + inversion E; subst. exists r. split; [reflexivity|exact Hin].
+      + destruct (ps_beq n (psr_name x)); [|discriminate]. inversion E; subst. rewrite Hx in Hin. contradiction.
+    - intros (r & E & Hin). rewrite E. exists r. split; [reflexivity|exact Hin].
+  Qed.
+
+  Lemma ps_inv_put : forall name observable pkt m A G,
+    ps_inv m A G -> ps_evt_ok (PsEvPut name observable pkt) m ->
+    Forall (ps_call_wf (psc_la c) (psc_lt c)) (ps_ev_calls alloc c (PsEvPut name observable pkt) m) /\
+    ps_inv (fst (ps_ev_out alloc (PsEvPut name observable pkt) m))
+           (ps_abs_calls (ps_ev_calls alloc c (PsEvPut name observable pkt) m) A)
+           (ps_ghost (PsEvPut name observable pkt) m G).
+  Proof.
+    intros name observable pkt m A G Hi (Hnok & Hpk & Happ). unfold ps_ghost.
+    cbn [ps_ev_calls ps_ev_out].
+    destruct (ps_find name m) as [r0|] eqn:Hf;
+      [cbn [fst snd ps_abs_calls]; rewrite app_nil_r; split; [constructor|exact Hi]|].
+    cbn [fst snd]. rewrite app_nil_r.
+    set (new := mkRsrc name observable PS_OBSERVE0 []).
+    set (d := mkDyn (psc_proto c) name pkt).
+    set (calls := if observable then [CDynAdded d] else []).
+    assert (Hcw : Forall (ps_call_wf (psc_la c) (psc_lt c)) calls).
+    { subst calls. destruct observable; [|constructor]. constructor; [|constructor].
+      cbn [ps_call_wf]. unfold ps_dyn_wf. cbn [psd_proto psd_name psd_pkt d].
+      destruct Hnok as [_ Hl]. unfold PS_LINE, PS_MAX in *. pose proof (len_nonneg name).
+      split; [exact cfg_proto|]. split; lia. }
+    split; [exact Hcw|].
+    assert (HA : ps_abs_wf (psc_la c) (psc_lt c) (ps_abs_calls calls A)).
+    { apply (ps_abs_calls_wf (fun _ _ => 0) c); [apply (iv_wf _ _ _ Hi)|exact Hcw]. }
+    assert (Hoc : ab_obs (ps_abs_calls calls A) = ab_obs A /\ ab_cnt (ps_abs_calls calls A) = ab_cnt A).
+    { subst calls. destruct observable; cbn [ps_abs_calls ps_abs_call ab_obs ab_cnt]; split; reflexivity. }
+    destruct Hoc as [Hobsf Hcntf].
+    assert (Hiff : forall n s, ps_insub (m ++ [new]) n s <-> ps_insub m n s)
+      by (intros; apply ps_insub_app_fresh; reflexivity).
+    assert (Hfind : forall n, ps_find n (m ++ [new]) =
+                      match ps_find n m with Some r => Some r
+                      | None => if ps_beq n name then Some new else None end)
+      by (intro n; apply ps_find_app).
+    assert (Hkeep : forall n, ps_has m n -> ps_has (m ++ [new]) n).
+    { intros n Hn. unfold ps_has in *. rewrite Hfind. destruct (ps_find n m); [discriminate|contradiction]. }
+    constructor.
+    - apply ps_names_app; [apply (iv_names _ _ _ Hi)|exact Hf].
+    - intros n r Hr. rewrite Hfind in Hr. destruct (ps_find n m) as [r1|] eqn:E1.
+      + inversion Hr; subst. apply (iv_res _ _ _ Hi n r E1).
+      + destruct (ps_beq n name) eqn:En; [|discriminate]. apply ps_beq_eq in En. inversion Hr; subst.
+        cbn [psr_observe psr_subs new]. split; [exact Hnok|]. unfold ps_bound, PS_OBSERVE0.
+        split; [lia|]. split; [constructor|]. intro X. contradiction.
+    - intros n s Hs. apply Hiff in Hs. apply (iv_sub _ _ _ Hi n s Hs).
+    - intros n1 s1 n2 s2 H1 H2. apply Hiff in H1. apply Hiff in H2. apply (iv_key _ _ _ Hi); assumption.
+    - intros n s1 s2 H1 H2. apply Hiff in H1. apply Hiff in H2. apply (iv_tok _ _ _ Hi n); assumption.
+    - intros n s1 s2 H1 H2. apply Hiff in H1. apply Hiff in H2. apply (iv_ck _ _ _ Hi n); assumption.
+    - exact HA.
+    - intros n r Hr Ho. rewrite Hfind in Hr. destruct (ps_find n m) as [r1|] eqn:E1.
+      + inversion Hr; subst. destruct (iv_dyn _ _ _ Hi n r E1 Ho) as [Hs|(d0 & Hd0 & Hn0)]; [left; exact Hs|].
+        right. exists d0. split; [|exact Hn0]. subst calls. destruct observable; [|exact Hd0].
+        cbn [ps_abs_calls ps_abs_call ab_dyn]. rewrite ps_ol_add by reflexivity. apply in_or_app. left.
+        apply ps_dyn_without_in. split; [exact Hd0|]. cbn [psd_name d]. intro E. congruence.
+      + destruct (ps_beq n name) eqn:En; [|discriminate]. apply ps_beq_eq in En. inversion Hr; subst.
+        cbn [psr_observable new] in Ho. subst observable. right. exists d. split; [|reflexivity].
+        cbn [ps_abs_calls ps_abs_call ab_dyn calls]. rewrite ps_ol_add by reflexivity.
+        apply in_or_app. right. left. reflexivity.
+    - intros d0 Hd0. subst calls. destruct observable; [|apply (iv_dynf _ _ _ Hi d0 Hd0)].
+      cbn [ps_abs_calls ps_abs_call ab_dyn] in Hd0. rewrite ps_ol_add in Hd0 by reflexivity.
+      apply in_app_or in Hd0. destruct Hd0 as [Hd0|[<-|[]]].
+      + apply ps_dyn_without_in in Hd0. apply (iv_dynf _ _ _ Hi d0 (proj1 Hd0)).
+      + cbn [psd_pkt psd_name d]. split; assumption.
+    - intros n s Hs. rewrite Hobsf. apply Hiff in Hs. apply (iv_obs1 _ _ _ Hi n s Hs).
+    - intros rec Hr. rewrite Hobsf in Hr. destruct (iv_obs2 _ _ _ Hi rec Hr) as (n & s & Hs & E).
+      exists n, s. split; [apply Hiff; exact Hs|exact E].
+    - rewrite Hobsf. apply (iv_obs3 _ _ _ Hi).
+    - intros n x Hin. rewrite Hcntf in Hin. apply Hkeep. apply (iv_cnt0 _ _ _ Hi n x Hin).
+    - rewrite Hcntf. apply (iv_cnt1 _ _ _ Hi).
+    - intros n x r Hin Hr. rewrite Hcntf in Hin. rewrite Hfind in Hr.
+      pose proof (iv_cnt0 _ _ _ Hi n x Hin) as Hh. unfold ps_has in Hh.
+      destruct (ps_find n m) as [r1|] eqn:E1; [|contradiction]. inversion Hr; subst.
+      apply (iv_cnt2 _ _ _ Hi n x r Hin E1).
+    - intros n r Hr Hs. rewrite Hcntf. rewrite Hfind in Hr. destruct (ps_find n m) as [r1|] eqn:E1.
+      + inversion Hr; subst. apply (iv_cnt3 _ _ _ Hi n r E1 Hs).
+      + destruct (ps_beq n name); [|discriminate]. inversion Hr; subst. cbn [psr_subs new] in Hs. contradiction.
+    - intros n tu tok v Hin. destruct (iv_sent _ _ _ Hi n tu tok v Hin) as (r & Hr & Hv & Hl).
+      exists r. rewrite Hfind, Hr, Hcntf. repeat split; assumption.
   Qed.
 End Coh.
